@@ -308,7 +308,7 @@ def strat_algebra(tier):
   fir = lambda lo, hi: st.lists(coef(lo, hi), min_size=1, max_size=3).map(live)
   return st.integers(3, 7).flatmap(lambda n: st.fixed_dictionaries(dict(
     op=st.sampled_from(["add", "sub", "mul", "scale", "delay", "mul_iir", "add_iir", "neg", "shared_square",
-                        "hub_reuse", "hub_reuse", "div_delayed_gain"]),
+                        "hub_reuse", "hub_reuse", "div_delayed_gain", "add_fir_to_iir", "add_number"]),
     hub=st.fixed_dictionaries(dict(c0=st.integers(1, 3), c1=st.integers(-3, 3).filter(lambda v: v != 0),
                                    c2=st.integers(-2, 2), d=st.integers(3, 4), extra=st.integers(0, 1),
                                    feedback=st.booleans())),
@@ -407,6 +407,25 @@ def run_algebra(c):
     Ng, _ = model_polys(gb, one, n)
     real, N, D = f * g, P_mul(Nf, Ng), Df
     used = (fb + gb, fa)
+  elif op in ("add_fir_to_iir", "add_number"):
+    # a filter with Streams in its feedback part plus a FIR filter / a plain number:
+    # (Nf + Ng*Df) / Df - each denominator Stream is needed twice, still read once per sample
+    fb, fa = c["f"]
+    if all(cc[0] == "const" for cc in fa):
+      fa = list(fa) + [("seq", [Q(1, 2), Q(-1), Q(2)] * 4)]
+    f = build_filter(fb, fa, c.get("route", "expr"), bt)
+    Nf, Df = model_polys(fb, fa, n)
+    if op == "add_number":
+      real = (f + c["c"]) if len(x) % 2 else (c["c"] + f)
+      Ng = {0: F(c["c"])}
+      used = (fb, fa + [("const", c["c"])])
+    else:
+      gb = c["gb"]
+      g = build_filter(gb, one, c.get("route", "expr"), bt)
+      Ng, _ = model_polys(gb, one, n)
+      real = f + g
+      used = (fb + gb, fa)
+    N, D = P_add(Nf, P_mul(Ng, Df)), Df
   else:  # add_iir: different denominators -> (Nf*Dg + Ng*Df) / (Df*Dg)
     fb, fa = c["f"]
     gb, ga = c["g"]
